@@ -1,12 +1,13 @@
 #!/bin/bash
 # apply every seeded change in turn, run that property's quick check, undo; one summary line each
 cd /verif
-for d in seeded/C*/; do
-  p=$(basename $d)
+for d in seeded/C*/ seeded/C*/round2/; do
+  [ -f $d/patch.diff ] || continue
+  p=$(echo $d | sed 's#seeded/\(C[0-9]*\)/.*#\1#')
   f=$d/patch.diff; [ -f $d/patch_rebased.diff ] && f=$d/patch_rebased.diff
   out=$(tools/try_seeded.sh $p $f quick 2>&1)
   nv=$(echo "$out" | grep -c '^VIOLATION')
   nf=$(echo "$out" | grep '^VIOLATION' | grep -vc 'no-failing-input-found')
-  echo "$p $(basename $f) violations=$nv with_failing_input=$nf $(echo "$out" | grep -E 'quick:' | sed 's/.*obligations/obligations/' | cut -c1-60) $(echo "$out" | grep -E 'does not apply' | head -1)"
+  echo "$p $d $(basename $f) violations=$nv with_failing_input=$nf $(echo "$out" | grep -E 'quick:' | sed 's/.*obligations/obligations/' | cut -c1-60) $(echo "$out" | grep -E 'does not apply' | head -1)"
 done
 git -C /repo status --short | head -3
